@@ -1,4 +1,4 @@
-(* C03 — the legacy backend: invariant, Revert undoes Update under the guard, reads. *)
+(* C03 — the legacy backend: invariant, Revert undoes Update, reads. *)
 From Coq Require Import List NArith Bool Lia ZifyN ZifyNat ZifyBool.
 From V Require Import C03.Model C03.Proofs_map C03.Proofs_inv C03.Proofs_store C03.Proofs_new C03.Proofs_read.
 Import ListNotations.
@@ -75,14 +75,7 @@ Section RevertOld.
   Variables (s : st) (d : diff).
   Hypothesis I : Inv s.
   Hypothesis Vd : Valid s d.
-  Hypothesis G : no_noop_zero_write s d = true \/ s_next s = 0.
   Let n := s_next s.
-
-  Lemma ro_noop : no_noop_zero_write s d = true -> forall e, In e (d_store d) -> noop s e = false.
-  Proof.
-    intros G0 e H. unfold no_noop_zero_write in G0. rewrite forallb_forall in G0. apply G0 in H.
-    unfold noop, skey. apply negb_true_iff in H. rewrite andb_comm. auto.
-  Qed.
 
   Lemma ro_empty : n = 0 -> s = st_empty.
   Proof. apply (i_empty _ I). Qed.
@@ -97,20 +90,33 @@ Section RevertOld.
     split; [|split]; [apply (i_b1 _ I') | apply (i_b2 _ I') | apply (i_b3 _ I')].
   Qed.
 
+  (* the value before block n of a slot the block wrote: from the log written for block n, or - when the
+     write was a no-op (zero over an absent leaf) and nothing was logged - from the head *)
   Lemma ro_rev_store : forall e, In e (d_store d) ->
-    rev_val_old (lstore_old s d) [fst (fst e); snd (fst e)] n = Some (getd (s_store s) (skey e)).
+    rev_store_old (store_old s d) [fst (fst e); snd (fst e)] n = getd (s_store s) [fst (fst e); snd (fst e)].
   Proof.
-    intros. destruct G as [G0 | G0].
-    - apply rev_val_old_hit.
-      + apply ro_sorted_ls.
-      + apply ro_below.
-      + unfold lstore_old. rewrite filter_all by (intros; rewrite ro_noop; auto).
-        simpl. rewrite get_lput2. fold n. rewrite N.eqb_refl.
-        destruct (find (fun e0 => keqb [fst (fst e); snd (fst e)] [fst (fst e0); snd (fst e0)]) (d_store d)) eqn:F.
-        * apply find_key_some in F. destruct F as [K _]. unfold skey. rewrite K. auto.
-        * eapply find_none in F; eauto. rewrite keqb_refl in F. discriminate.
-      + intros. rewrite (ro_empty H0). auto.
-    - unfold rev_val_old. fold n in G0. rewrite G0. simpl. rewrite (ro_empty G0). auto.
+    intros. rewrite store_old_eq. unfold rev_store_old. cbn [s_lstore s_store].
+    destruct (n =? 0) eqn:E0.
+    - rewrite (ro_empty ltac:(lia)). auto.
+    - destruct ro_below as [B1 _].
+      rewrite (old_scan (lstore_old s d) _ (n - 1) (n + 1)); [| apply ro_sorted_ls | unfold log_below; intros; eapply B1; eauto].
+      replace (n - 1 + 1) with n by lia. replace (N.to_nat (n + 1 - n)) with 1%nat by lia. simpl.
+      unfold lstore_old. rewrite get_lput2. fold n. rewrite N.eqb_refl.
+      destruct (find (fun e0 => keqb [fst (fst e); snd (fst e)] [fst (fst e0); snd (fst e0)])
+                     (filter (fun e0 => negb (noop s e0)) (d_store d))) eqn:F.
+      + apply find_key_some in F. destruct F as [K _]. unfold skey. rewrite <- K. auto.
+      + pose proof (below_none _ _ [fst (fst e); snd (fst e)] n (i_b1 _ I)) as BN. simpl in BN.
+        rewrite BN by lia.
+        unfold getd at 1. rewrite get_upd_store by apply (i_s4 _ I).
+        destruct (find (fun e0 => keqb [fst (fst e); snd (fst e)] (skey e0)) (d_store d)) eqn:F1.
+        * apply find_some in F1. destruct F1 as [Hin K].
+          assert (Hn : noop s p = true).
+          { destruct (noop s p) eqn:En; auto. exfalso.
+            eapply find_none in F; [| apply filter_In; split; [eauto | rewrite En; auto]].
+            unfold skey in K. simpl in F. congruence. }
+          unfold noop in Hn. apply andb_true_iff in Hn. destruct Hn as [H1 H2]. rewrite H2.
+          apply keqb_eq in K. rewrite <- K in H1. lia.
+        * auto.
   Qed.
 
   Lemma ro_rev_nonce : forall e, In e (d_nonce d) ->
@@ -181,14 +187,16 @@ Section RevertOld.
 
   Lemma revert_store_old : revert_old (store_old s d) d = Some s.
   Proof.
-    rewrite store_old_eq. unfold revert_old.
-    cbn [s_next s_class s_nonce s_dh s_store s_decl s_lstore s_lnonce s_lclass].
+    unfold revert_old.
+    assert (En : s_next (store_old s d) = s_next s + 1) by reflexivity. rewrite En.
     destruct (s_next s + 1 =? 0) eqn:E; [lia|].
-    replace (s_next s + 1 - 1) with (s_next s) by lia.
-    rewrite rm_decl_upd; [| apply (v_nodup_decl _ _ Vd) | apply (i_s5 _ I) | apply (i_decl _ I)].
+    replace (s_next s + 1 - 1) with (s_next s) by lia. fold n.
+    rewrite (map_ext_in _ (fun e => (fst e, getd (s_store s) [fst (fst e); snd (fst e)])) (d_store d));
+      [| intros; rewrite ro_rev_store; auto].
+    rewrite store_old_eq.
+    cbn [s_next s_class s_nonce s_dh s_store s_decl s_lstore s_lnonce s_lclass].
+    unfold n. rewrite rm_decl_upd; [| apply (v_nodup_decl _ _ Vd) | apply (i_s5 _ I) | apply (i_decl _ I)].
     fold n.
-    rewrite (map_opt_all _ (fun e => (fst e, getd (s_store s) [fst (fst e); snd (fst e)]))).
-    2:{ intros. rewrite ro_rev_store; auto. }
     rewrite (map_opt_all _ (fun e => (fst e, getd (nonce_dep s d) [fst e]))).
     2:{ intros. rewrite ro_rev_nonce; auto. }
     rewrite (map_opt_all _ (fun e => (fst e, getd (class_dep s d) [fst e]))).
@@ -322,58 +330,3 @@ Proof.
   - apply decl_stable; auto.
 Qed.
 
-(* ---------- without the guard the legacy revert fails (except at genesis) ---------- *)
-Lemma nodupk_inj : forall {A} (K : A -> key) l e e', nodupk (map K l) = true -> In e l -> In e' l -> K e = K e' -> e = e'.
-Proof.
-  induction l; simpl; intros; [contradiction|].
-  apply andb_true_iff in H. destruct H as [H3 H4]. apply negb_true_iff in H3.
-  assert (forall x, In x l -> K a <> K x).
-  { intros x Hx Heq. rewrite <- not_true_iff_false in H3. apply H3. apply existsb_exists.
-    exists (K x). split; [apply in_map; auto | apply keqb_eq; auto]. }
-  destruct H0, H1; subst; auto.
-  - exfalso. eapply H; eauto.
-  - exfalso. eapply H; eauto.
-Qed.
-
-Lemma map_opt_none : forall {A B} (f : A -> option B) l x, In x l -> f x = None -> map_opt f l = None.
-Proof.
-  induction l; simpl; intros; [contradiction|]. destruct H.
-  - subst. rewrite H0. auto.
-  - destruct (f a); auto. erewrite IHl; eauto.
-Qed.
-
-Lemma forallb_false : forall {A} (f : A -> bool) l, forallb f l = false -> exists x, In x l /\ f x = false.
-Proof.
-  induction l; simpl; intros; [discriminate|]. apply andb_false_iff in H. destruct H.
-  - exists a. auto.
-  - destruct (IHl H) as [x [? ?]]. exists x. auto.
-Qed.
-
-Lemma revert_store_old_fails : forall s d, Inv s -> Valid s d ->
-  no_noop_zero_write s d = false -> s_next s <> 0 -> revert_old (store_old s d) d = None.
-Proof.
-  intros s d I Vd G Hn. rewrite store_old_eq. unfold revert_old.
-  cbn [s_next s_class s_nonce s_dh s_store s_decl s_lstore s_lnonce s_lclass].
-  destruct (s_next s + 1 =? 0) eqn:E; [lia|].
-  replace (s_next s + 1 - 1) with (s_next s) by lia.
-  rewrite rm_decl_upd; [| apply (v_nodup_decl _ _ Vd) | apply (i_s5 _ I) | apply (i_decl _ I)].
-  unfold no_noop_zero_write in G. apply forallb_false in G. destruct G as [e [Hin He]].
-  apply negb_false_iff in He.
-  assert (Hnoop : noop s e = true) by (unfold noop, skey; rewrite andb_comm; auto).
-  rewrite (map_opt_none _ (d_store d) e); auto.
-  pose proof (Inv_store_old s d I Vd) as I'. rewrite store_old_eq in I'.
-  unfold rev_val_old. destruct (s_next s =? 0) eqn:E0; [lia|].
-  rewrite (old_scan (lstore_old s d) _ (s_next s - 1) (s_next s + 1)).
-  - replace (s_next s - 1 + 1) with (s_next s) by lia.
-    replace (N.to_nat (s_next s + 1 - s_next s)) with 1%nat by lia. simpl.
-    unfold lstore_old. rewrite get_lput2, N.eqb_refl.
-    destruct (find _ (filter _ (d_store d))) eqn:F.
-    + exfalso. apply find_some in F. destruct F as [Hf K]. apply filter_In in Hf. destruct Hf as [Hp Hq].
-      apply keqb_eq in K.
-      assert (e = p). { apply (nodupk_inj skey (d_store d)); auto. apply (v_nodup_store _ _ Vd). }
-      subst. rewrite Hnoop in Hq. discriminate.
-    + pose proof (below_none _ _ [fst (fst e); snd (fst e)] (s_next s) (i_b1 _ I)) as BN. simpl in BN.
-      rewrite BN by lia. auto.
-  - apply (i_s6 _ I').
-  - unfold log_below. intros. eapply (i_b1 _ I'); eauto.
-Qed.
